@@ -190,8 +190,15 @@ func EVM(r *kit.Run, rng *rand.Rand, pal *Palette, name string, chainID uint64) 
 		parent := g
 		var second *es.Hdr
 		for i := 0; i < 6; i++ {
-			h := es.Child(rng, forks, parent, es.ChildOpt{Root: &root, Dt: uint64(10 + rng.Intn(5))})
-			e.SyncHeaders(chainID, h.JSON())
+			dt := uint64(10 + rng.Intn(5))
+			if i == 2 {
+				// one slow block (the difficulty formula's -99 clamp branch) followed by ordinary ones
+				dt = 1000 + uint64(rng.Intn(4000))
+			}
+			h := es.Child(rng, forks, parent, es.ChildOpt{Root: &root, Dt: dt})
+			if rec := e.SyncHeaders(chainID, h.JSON()); i == 2 && rec.Ok {
+				r.Count("eth_slow_block_header_accepted", 1)
+			}
 			if i == 1 {
 				second = parent
 			}
@@ -206,6 +213,34 @@ func EVM(r *kit.Run, rng *rand.Rand, pal *Palette, name string, chainID uint64) 
 		bad := es.Child(rng, forks, parent, es.ChildOpt{Root: &root, Dt: 12})
 		bad.Difficulty = new(big.Int).Add(bad.Difficulty, big.NewInt(1))
 		e.SyncHeaders(chainID, bad.JSON())
+		// a second eth chain below London (the legacy difficulty formula), again with one slow block
+		// (the -99 clamp branch) between ordinary ones
+		if forks.London > 400000 {
+			pre := chainID + 7
+			if pre == target {
+				pre++
+			}
+			if err := e.RegisterSideChain(pre, utils.ETH_ROUTER, name+"-pre-london", 1, ccmc[:], nil); err == nil {
+				g2 := es.NewRoot(rng, forks, forks.London-300000-uint64(rng.Intn(50000)), big.NewInt(1500000000000), 8000000)
+				e.SyncGenesis(pre, g2.JSON())
+				par := g2
+				for i := 0; i < 5; i++ {
+					dt := uint64(10 + rng.Intn(5))
+					if i == 1 {
+						dt = 1000 + uint64(rng.Intn(4000))
+					}
+					h := es.Child(rng, forks, par, es.ChildOpt{Root: &root, Dt: dt})
+					rec := e.SyncHeaders(pre, h.JSON())
+					if rec.Ok {
+						r.Count("eth_pre_london_header_accepted", 1)
+						if i == 1 {
+							r.Count("eth_pre_london_slow_block_header_accepted", 1)
+						}
+					}
+					par = h
+				}
+			}
+		}
 	} else {
 		f := flavorOf(name)
 		if f == nil {
